@@ -60,6 +60,12 @@ IsNamespace(tag) == tag = "DW_TAG_namespace"
 (* entries carry none.  In .debug_loc (DWARF <= 4) all of them are the one   *)
 (* address-or-offset pair, optionally after a base address selection entry.  *)
 LocEntryKinds == <<"offset_pair", "start_end", "start_length", "startx_endx", "startx_length", "default_location">>
+(* ... and what address range the entry has (field shape).  The resolving    *)
+(* iterator of the reader drops entries with an empty or reversed range, a   *)
+(* tombstone begin address, or an offset pair after a tombstone base address,*)
+(* but the conversion converts every raw entry, so their expressions count   *)
+(* all the same: the dependency does not depend on the shape.                *)
+LocShapes == <<"normal", "empty", "reversed", "tomb", "tombbase">>
 UnitOps == <<"call", "paramref">>
 TypedOps == <<"deref_type", "regval_type", "const_type", "convert", "reinterpret">>
 InfoOps == <<"callref", "implptr", "varval", "entryval">>
